@@ -576,7 +576,12 @@ func c20Validate(c c20Case) error {
 		idents := map[string]bool{}
 		for _, f := range d.Files {
 			where := d.Path + "/" + f.Name
-			if names[f.Name] || !c20FileRe.MatchString(f.Name) {
+			nameOK := c20FileRe.MatchString(f.Name)
+			if f.Kind == "other" && len(f.Name) > 1 && (f.Name[0] == '_' || f.Name[0] == '.') {
+				// notes, editor and VCS files: not Go sources, whatever their name starts with
+				nameOK = c20FileRe.MatchString(f.Name[1:])
+			}
+			if names[f.Name] || !nameOK {
 				return fmt.Errorf("%s: bad or duplicate file name", where)
 			}
 			names[f.Name] = true
@@ -1135,7 +1140,7 @@ func c20GenFile(t *rapid.T, dir string, names, idents map[string]bool) c20File {
 			f.Pkg += "_test"
 		}
 	default:
-		f.Name = c20UniqueFile(names, base+"_f", rapid.SampledFrom(c20OtherExts).Draw(t, "ext"))
+		f.Name = c20UniqueFile(names, rapid.SampledFrom([]string{"", "", "", "_", "."}).Draw(t, "otherlead")+base+"_f", rapid.SampledFrom(c20OtherExts).Draw(t, "ext"))
 		f.Junk = rapid.IntRange(0, 3).Draw(t, "junk") == 0
 		if f.Junk {
 			return f
@@ -1155,7 +1160,7 @@ func c20GenFile(t *rapid.T, dir string, names, idents map[string]bool) c20File {
 	for i := 0; i < n; i++ {
 		it := c20GenItem(t, ids)
 		if kind != "go" && it.Name != "" {
-			it.Name = it.Name + "X" + strings.NewReplacer(".", "", "~", "", "_", "").Replace(f.Name)
+			it.Name = it.Name + "X" + strings.NewReplacer(".", "D", "~", "T", "_", "U").Replace(f.Name)
 		}
 		f.Items = append(f.Items, it)
 	}
